@@ -381,41 +381,64 @@ def rg_identifiers(ctx):
 
 
 def r2_model_keys(ctx):
-    """structural: keys of each to_dict (from the dict(...) call in the source) are fields of the model; every model
-    field is forwarded by Model.to_<object>"""
+    """the dictionaries written by to_dict carry only keys the corresponding marshmallow model declares (an undeclared key
+    makes Model.Schema().load(obj.to_dict()) fail).  Interpreted: to_dict is evaluated on objects of every class built by
+    the analyser (chromosome and chunk coordinates) and the keys actually written are compared with the model's fields."""
     r, repo = ctx.r, ctx.repo
+    it = gene_interp(repo, max_steps=10 ** 10)
+    S = strands(it)
     where = {"FeatureInterval": "gene.feature", "TranscriptInterval": "gene.transcript", "GeneInterval": "gene.gene",
              "FeatureIntervalCollection": "gene.feature", "AnnotationCollection": "gene.collections",
              "VariantInterval": "gene.variants", "VariantIntervalCollection": "gene.variants"}
+    parent = chunk_parent(it, GENOME, 2, 49, alphabet="NT_EXTENDED")
+    ms = models()
+    objs = [build(it, S, parent, m) for m in ms]
+    genes = [o for o, m in zip(objs, ms) if m["kind"] == "gene"]
+    fcs = [o for o, m in zip(objs, ms) if m["kind"] != "gene"]
+    var = it.apply(ClassTok("VariantInterval"), [10, 12, "T", "delins"], {"parent_or_seq_chunk_parent": parent, "variant_name": "v"}, None, 0)
+    samples = {"GeneInterval": genes[0], "TranscriptInterval": genes[0].fields["transcripts"][0], "FeatureIntervalCollection": fcs[0],
+               "FeatureInterval": fcs[0].fields["feature_intervals"][0],
+               "AnnotationCollection": mk_collection(it, genes, fcs, sequence_name="chr1", parent_or_seq_chunk_parent=parent),
+               "VariantInterval": var,
+               "VariantIntervalCollection": it.apply(ClassTok("VariantIntervalCollection"), [[var]],
+                                                      {"variant_collection_id": "vc", "parent_or_seq_chunk_parent": parent}, None, 0)}
     n = 0
     for cname, (mname, conv) in MODEL_OF.items():
         f = repo.fn(f"{where[cname]}:{cname}.to_dict")
-        keys = None
-        for ret in [x for x in ast.walk(f.node) if isinstance(x, ast.Return)]:
-            v = ret.value
-            if isinstance(v, ast.Call) and call_tail(v) == "dict" and v.keywords:
-                keys = [k.arg for k in v.keywords]
-            elif isinstance(v, ast.Dict):
-                keys = [k.value for k in v.keys if isinstance(k, ast.Constant)]
-        if keys is None:
-            r.undecide("C08.R2", f.qual, "to_dict keys", "to_dict does not return a dict(...) display", f)
-            continue
         fields = model_fields(repo, mname)
-        n += 1
-        for k in keys:
-            r.check(k in fields, "C08.R2", f.qual, f"key {k}",
-                    f"{cname}.to_dict writes key {k!r} which {mname} does not declare (fields: {sorted(fields)}): "
-                    f"{mname}.Schema().load(obj.to_dict()) rejects it", f)
+        for chrom_rel in (True, False):
+            k, d = run(it, f, [], {"chromosome_relative_coordinates": chrom_rel} if "chromosome_relative_coordinates" in f.pos_params else {},
+                       samples[cname])
+            if k != "ok":
+                r.violation("C08.R2", f.qual, "to_dict", f"{cname}.to_dict(chromosome_relative_coordinates={chrom_rel}) raises {d}", f)
+                continue
+            n += 1
+            for key in d:
+                r.check(key in fields, "C08.R2", f.qual, f"key {key}",
+                        f"{cname}.to_dict writes key {key!r} which {mname} does not declare (fields: {sorted(fields)}): "
+                        f"{mname}.Schema().load(obj.to_dict()) rejects it", f)
+            if "chromosome_relative_coordinates" not in f.pos_params:
+                break
+    r.floor("C08.R2", "to_dict evaluations", n, 7)
+
+
+def r2b_model_fields_forwarded(ctx):
+    """strengthening (never alarms): every declared model field is read by Model.to_<object>; the round trips in RK decide the
+    behaviour on the enumerated objects"""
+    r, repo = ctx.r, ctx.repo
+    r.soften("C08.R2b")
+    for cname, (mname, conv) in MODEL_OF.items():
+        fields = model_fields(repo, mname)
         conv_fn = repo.fn(f"io.models:{mname}.{conv}")
         used = {src(x) for x in ast.walk(conv_fn.node) if isinstance(x, ast.Attribute) and dotted(x.value) == "self"}
         for fld in fields:
-            r.check(f"self.{fld}" in used, "C08.R2", conv_fn.qual, f"field {fld} forwarded",
+            r.check(f"self.{fld}" in used, "C08.R2b", conv_fn.qual, f"field {fld} forwarded",
                     f"{mname}.{conv} never reads self.{fld}: the value is lost when the model is turned into an object", conv_fn)
-    r.floor("C08.R2", "to_dict / model pairs", n, 7)
 
 
 RULES = [
     ("C08.RK", rk_round_trips),
     ("C08.RG", rg_identifiers),
     ("C08.R2", r2_model_keys),
+    ("C08.R2b", r2b_model_fields_forwarded),
 ]
